@@ -209,6 +209,25 @@ def run(ctx):
         lb9 = natural_loop_blocks(root, t.bb)
         ctx.require("Eof" in named, "R-C19-9", "reading-loop|%d" % n_rl, "the loop around read_event_into names Event::Eof",
                     "a loop around read_event_into dispatches on %s and has no arm for Event::Eof: at the end of a truncated document quick-xml returns Eof on every call, the catch-all arm keeps looping and read_graphml_string never returns" % sorted(named), loc_str(t.span))
+        # ... and Eof is the ONLY outcome on which the document loop is left towards the constructor: a second way out
+        # (an end tag, a guard on an element name) returns Ok with the rest of the document unread -- GraphML allows a
+        # nested <graph> inside a node and several <graph> elements, so elements may follow a </graph>
+        if ctor and len(lb9) > 1:
+            outs9 = []
+            for x9 in sorted(lb9):
+                bx9 = root.blocks[x9]
+                for y9 in set(root.succ(x9)):
+                    if y9 in lb9 or ctor[0].bb not in (root.reachable_from(y9) | {y9}):
+                        continue
+                    if bx9.term.k == "switch":
+                        at9 = flows.of(root).atom(x9)
+                        vals9 = [v_ for (v_, t_) in at9["targets"] if t_ == y9] + (["otherwise"] if at9["otherwise"] == y9 else [])
+                        for v_ in vals9:
+                            outs9.append((x9, v_, bx9.term.span))
+                    else:
+                        outs9.append((x9, None, getattr(bx9.term, "span", None)))
+            ctx.require(len(outs9) <= 1, "R-C19-9", "single-exit|%d" % n_rl, "the document loop is left towards the constructor on one outcome only (the Eof arm)",
+                        "the loop around read_event_into is left towards the constructor on %d outcomes (%s): besides Event::Eof something else ends the reading, and the nodes and edges after that point are missing from the Ok graph" % (len(outs9), ", ".join(sorted(set(loc_str(o_[2]) for o_ in outs9 if o_[2])))), loc_str(outs9[-1][2]) if outs9 and outs9[-1][2] else loc_str(t.span))
     ctx.floor("R-C19-9", "reading_loops", n_rl, 1)
 
     def event_kinds_at(sp):
